@@ -2215,12 +2215,81 @@ def _entry_or_insert(it, args, dty, func):
 
 @model("tokio::sync::Notify::new")
 def _notify_new(it, args, dty, func):
-    return Agg("{notify}", [])
+    return Agg("{notify}", [0, False])
 
 
-@model("tokio::sync::Notify::notify_waiters", "tokio::sync::Notify::notify_one")
+def _notify_obj(v):
+    n = _deref(v)
+    while isinstance(n, BoxV):
+        n = _deref(n.load())
+    while len(n.f) < 2:                 # drivers may assemble a bare Agg("{notify}", [])
+        n.f.append(0 if not n.f else False)
+    return n
+
+
+@model("tokio::sync::Notify::notify_waiters")
 def _notify_waiters(it, args, dty, func):
+    _notify_obj(args[0]).f[0] += 1      # generation: wakes every Notified created before this call
     return UNIT
+
+
+@model("tokio::sync::Notify::notify_one")
+def _notify_one(it, args, dty, func):
+    _notify_obj(args[0]).f[1] = True    # sequential semantics: nobody is waiting concurrently, so a permit is stored
+    return UNIT
+
+
+@model("tokio::sync::Notify::notified")
+def _notify_notified(it, args, dty, func):
+    n = _notify_obj(args[0])
+    return Agg("{notified}", [n, n.f[0]])
+
+
+@trait_model(r"^tokio::sync::(futures::)?Notified", "Future", "poll")
+def _notified_poll(it, args, dty, func):
+    fut = _deref(args[0])
+    if not (isinstance(fut, Agg) and fut.ty == "{notified}"):
+        raise Unsupported(f"poll of {fut!r}")
+    n, gen0 = fut.f
+    if n.f[0] > gen0:
+        return Enum("std::task::Poll", 0, "Ready", [UNIT])
+    if n.f[1]:
+        n.f[1] = False
+        return Enum("std::task::Poll", 0, "Ready", [UNIT])
+    return Enum("std::task::Poll", 1, "Pending", [])
+
+
+@trait_model(r"^tokio::sync::(futures::)?Notified", "IntoFuture", "into_future")
+def _notified_into(it, args, dty, func):
+    return args[0]
+
+
+# tokio's async mutex, sequential semantics: lock() is Ready when the mutex is free at the moment it is polled;
+# the guard's drop (MODEL_DROPS below, consulted by the interpreter's drop handling) releases it
+@model("tokio::sync::Mutex::new")
+def _amutex_new(it, args, dty, func):
+    return Agg("{amutex}", [False, args[0]])
+
+
+@model("tokio::sync::Mutex::lock")
+def _amutex_lock(it, args, dty, func):
+    return Agg("{amutex.lockfut}", [args[0]])
+
+
+def _amutex_poll(it, fut):
+    m = _deref(fut.f[0])
+    if m.f[0]:
+        return Enum("std::task::Poll", 1, "Pending", [])
+    m.f[0] = True
+    return Enum("std::task::Poll", 0, "Ready", [Agg("{amutex.guard}", [fut.f[0]])])
+
+
+def _amutex_guard_drop(it, guard):
+    m = _deref(guard.f[0])
+    m.f[0] = False
+
+
+MODEL_DROPS = {"{amutex.guard}": _amutex_guard_drop}
 
 
 # --- fibre channels, sequential semantics (bounded FIFOs); interleavings are cfa-bmc's job ------------
@@ -2259,6 +2328,47 @@ def _chan_try_recv(it, args, dty, func):
     if ch.items:
         return ok(ch.items.pop(0))
     return err(Enum("fibre::TryRecvError", 1 if ch.closed else 0, "Disconnected" if ch.closed else "Empty", []))
+
+
+# awaited channel operations (sequential semantics): the future is Ready when the operation can take effect at
+# the moment it is polled and Pending otherwise; a pending send future owns its item until it is polled Ready
+@model("fibre::spsc::BoundedAsyncSender::send", "fibre::mpmc_v2::AsyncSender::send")
+def _chan_send_fut(it, args, dty, func):
+    return Agg("{chan.sendfut}", [_chan(args[0]), args[1], False])
+
+
+@model("fibre::spsc::BoundedAsyncReceiver::recv", "fibre::mpmc_v2::AsyncReceiver::recv")
+def _chan_recv_fut(it, args, dty, func):
+    return Agg("{chan.recvfut}", [_chan(args[0])])
+
+
+@trait_model(r"^fibre::(spsc|mpmc_v2)::(SendFuture|RecvFuture|ReceiveFuture)", "Future", "poll")
+def _chan_fut_poll(it, args, dty, func):
+    fut = _deref(args[0])
+    if not isinstance(fut, Agg) or fut.ty not in ("{chan.sendfut}", "{chan.recvfut}"):
+        raise Unsupported(f"poll of {fut!r}")
+    ch = fut.f[0]
+    if fut.ty == "{chan.sendfut}":
+        if fut.f[2]:
+            raise Panic("poll-after-ready", "send future polled after completion", "", "")
+        if ch.closed:
+            fut.f[2] = True
+            return Enum("std::task::Poll", 0, "Ready", [err(Agg("fibre::SendError", []))])
+        if len(ch.items) >= ch.cap:
+            return Enum("std::task::Poll", 1, "Pending", [])
+        ch.items.append(fut.f[1])
+        fut.f[2] = True
+        return Enum("std::task::Poll", 0, "Ready", [ok(UNIT)])
+    if ch.items:
+        return Enum("std::task::Poll", 0, "Ready", [ok(ch.items.pop(0))])
+    if ch.closed:
+        return Enum("std::task::Poll", 0, "Ready", [err(Agg("fibre::RecvError", []))])
+    return Enum("std::task::Poll", 1, "Pending", [])
+
+
+@trait_model(r"^fibre::(spsc|mpmc_v2)::(SendFuture|RecvFuture|ReceiveFuture)", "IntoFuture", "into_future")
+def _chan_fut_into(it, args, dty, func):
+    return args[0]
 
 
 @model("fibre::spsc::BoundedAsyncReceiver::len", "fibre::spsc::BoundedAsyncSender::len")
@@ -2514,6 +2624,8 @@ def _async_poll(it, args, dty, func):
     if not m:
         raise Unsupported("async poll: " + func[:80])
     path = strip_generics(m.group(1))
+    if path == "tokio::sync::Mutex::lock":
+        return _amutex_poll(it, _deref(args[0]))
     fn = it.resolve_fn(path, path)
     if fn is None:
         raise Unsupported("async fn body not found: " + path)
